@@ -266,7 +266,7 @@ PROPS = {
         ],
     },
     'C16': {
-        'v_units': ['variable', 'varset', 'simplecmd'],
+        'v_units': ['variable', 'varset', 'simplecmd', 'funcall'],
         'k_units': [],
         'level': 'proof',
         'explanation': (
@@ -288,7 +288,9 @@ PROPS = {
             'emits entries built from the name and current value of a visible exported variable (the formatting into a C string is '
             'not verified). Unit simplecmd (shared with C02): the assignments of a command that exports them (regular built-in, function, '
             'external utility) are made in the volatile scope - they do not outlive the command -, those of a special built-in or of a command '
-            'without a name in the global scope (perform_assignments of simple_command.rs). NOT decided: completeness of env_c_strings, ContextGuard, positional parameters, extend_env / init, and '
+            'without a name in the global scope (perform_assignments of simple_command.rs). Unit funcall (shared with C02): a function body runs '
+            'in a regular context of its own holding the call\'s positional parameters, which is popped when the call ends (RAII of the context '
+            'guard assumed). NOT decided: completeness of env_c_strings, ContextGuard, positional parameters, extend_env / init, and '
             'everything the interpreter does with these operations (which scope a built-in, function or assignment uses).'),
         'trusted_base': ['Verus 0.2026.09.13 + Z3', '/verif/tools/vextract.py'],
         'assumptions': [
@@ -321,7 +323,7 @@ PROPS = {
         'assumptions': ['Mode::with_extensions only', 'two fixed option tables'],
     },
     'C02': {
-        'v_units': ['cmdsearch', 'looplevel', 'whileloop', 'condframe', 'simplecmd'],
+        'v_units': ['cmdsearch', 'looplevel', 'whileloop', 'condframe', 'simplecmd', 'funcall'],
         'k_units': ['loopcount'],
         'level': 'other',
         'explanation': (
@@ -349,7 +351,10 @@ PROPS = {
             'is zero) or (`||` and it is not), otherwise nothing runs and the status stays - left to right, equal precedence, because each '
             'element only looks at the status left by what ran before it; `!` inverts only the status (0 <-> 1 / non-zero -> 0) and only when '
             'the commands ended normally, a divert passes through un-inverted; the condition of if / while / until holds iff its last command '
-            'succeeded; (5) unit simplecmd (Verus): SimpleCommand::execute classifies the first field and runs exactly the executor for that '
+            'succeeded; (6) unit funcall (Verus): execute_function_body runs the body exactly once in a regular variable context of its own '
+            '(positional parameters = the fields of the call) on top of what the caller had, gone afterwards; a Return divert from the body ends '
+            'THIS call only - the caller goes on, with the status the return carried - and every other divert is handed on unchanged; '
+            '(5) unit simplecmd (Verus): SimpleCommand::execute classifies the first field and runs exactly the executor for that '
             'kind of target, once (the absent-target executor for a command without a name), nothing after a failed expansion; the if command tries its conditions in order, runs a `then` branch only right after ITS condition held and the else '
             'branch only after every condition failed, has the status and result of the branch it ran, and status 0 when it ran none. '
             'NOT decided: everything else C02 says - which commands run in which order with which $?, multi-command pipelines, '
@@ -360,6 +365,7 @@ PROPS = {
             'unit cmdsearch: the methods of ClassifyEnv / PathEnv answer according to ghost views builtin_of / function_of / path_hit (implementor obligation, not verified); search_path is external_body (returns path_hit, leaves the environment alone); str::contains(char), CString::default / new are opaque helpers; Builtin / Function reduced to what the search reads; the raw identifier r#type is renamed (Verus aborts on it); derived PartialEq of Type is structural',
             'unit looplevel: Stack::loop_count is external_body with the contract the Kani unit loopcount checks (bounded); NonZeroUsize::get returns the non-zero number; ExitStatus::SUCCESS = ExitStatus(0); Field and trap::Condition are placeholders',
             'unit loopcount (Kani): Frame::Builtin frames are not among the generated frames',
+            'units simplecmd / funcall: word expansion, classification, the four executors, error handlers, apply_errexit, the assignment performer, executing a function body, the environment hook are opaque calls observed by ghost monitors; RAII of the context guard is assumed in the contract of Env::push_context (external_body); `&mut guard` is checked as `guard.env`; await points dropped',
             'unit whileloop: List::execute and evaluate_condition are external_body (any result, appended to a ghost log in the reduced Env); `?` on ControlFlow through assumed contracts of Try::branch / FromResidual::from_residual; await points dropped; termination not claimed',
         ],
     },
